@@ -234,7 +234,51 @@ pub fn realise_fb(g: &Graph, salt: u64, arrays: bool) -> (String, Vec<(usize, us
     if decorated {
         s.push_str(DECORATION_TYPES);
     }
+    // a sixth of the (small) graphs name their blocks like the standard function blocks: a user may
+    // declare FUNCTION_BLOCK TON, and what is declared in the unit is a node of the graph whatever
+    // it is called (other rules may object to the name; "recursive" is decided by the edges)
+    if g.n <= 10 && mix(salt ^ 0x57d) % 6 == 0 {
+        s = rename_standard(&s, g.n);
+    }
     (s, soft)
+}
+
+const STANDARD_NAMES: [&str; 10] = ["ton", "tof", "tp", "sr", "rs", "r_trig", "f_trig", "ctu", "ctd", "ctud"];
+
+/// every whole word fbK / FBK / FbK (K < n) becomes the K-th standard function block name in the
+/// same letter-case style
+fn rename_standard(text: &str, n: usize) -> String {
+    let b: Vec<char> = text.chars().collect();
+    let mut out = String::new();
+    let mut i = 0;
+    while i < b.len() {
+        let word_start = i == 0 || !(b[i - 1].is_ascii_alphanumeric() || b[i - 1] == '_');
+        if word_start && i + 2 < b.len() && b[i].eq_ignore_ascii_case(&'f') && b[i + 1].eq_ignore_ascii_case(&'b') && b[i + 2].is_ascii_digit() {
+            let mut j = i + 2;
+            while j < b.len() && b[j].is_ascii_digit() {
+                j += 1;
+            }
+            let word_end = j == b.len() || !(b[j].is_ascii_alphanumeric() || b[j] == '_');
+            let k: usize = b[i + 2..j].iter().collect::<String>().parse().unwrap_or(usize::MAX);
+            if word_end && k < n && k < STANDARD_NAMES.len() {
+                let name = STANDARD_NAMES[k];
+                let styled = if b[i].is_ascii_uppercase() && b[i + 1].is_ascii_uppercase() {
+                    name.to_ascii_uppercase()
+                } else if b[i].is_ascii_uppercase() {
+                    let mut c = name.chars();
+                    c.next().map(|f| f.to_ascii_uppercase().to_string() + c.as_str()).unwrap_or_default()
+                } else {
+                    name.to_string()
+                };
+                out.push_str(&styled);
+                i = j;
+                continue;
+            }
+        }
+        out.push(b[i]);
+        i += 1;
+    }
+    out
 }
 
 /// node = data type: leaf = enumeration, out-degree 1 = alias (when the target resolves to an
